@@ -279,14 +279,14 @@ impl Send {
             // Note that we don't call `self.recv_err` because we want to enqueue
             // the reset frame before transitioning the stream inside
             // `reclaim_all_capacity`.
-            self.prioritize.clear_queue(buffer, stream);
+            self.prioritize.clear_queue(buffer, stream, counts);
         } else {
             // Only the initial HEADERS have to survive. Anything queued behind
             // them (DATA, trailers) is dropped as for an open stream: it must
             // not be sent, and the RST_STREAM must not wait behind
             // flow-controlled DATA.
             let headers = stream.pending_send.pop_front(buffer);
-            self.prioritize.clear_queue(buffer, stream);
+            self.prioritize.clear_queue(buffer, stream, counts);
             if let Some(frame) = headers {
                 stream.pending_send.push_front(buffer, frame);
             }
@@ -515,7 +515,7 @@ impl Send {
         counts: &mut Counts,
     ) {
         // Clear all pending outbound frames
-        self.prioritize.clear_queue(buffer, stream);
+        self.prioritize.clear_queue(buffer, stream, counts);
         self.prioritize.reclaim_all_capacity(stream, counts);
     }
 
